@@ -87,7 +87,9 @@ F_IterClose(s) == IF s.iter = "abs" THEN [s EXCEPT !.relFresh = FALSE, !.iter = 
                   ELSE [s EXCEPT !.absFresh = FALSE, !.iter = "none"]
 
 (* ---- the alphabet of abstract operations ---- *)
-AbsMutOps == {"add_absolute_message", "cutoff", "quantise", "quantise_note_lengths"}
+(* add_absolute_cap: add_absolute_message of an INTERNAL message beyond the end (it lengthens the sequence; the relative
+   view shows it as a trailing wait) *)
+AbsMutOps == {"add_absolute_message", "add_absolute_cap", "cutoff", "quantise", "quantise_note_lengths"}
 RelMutOps == {"add_relative_message", "concatenate", "normalise", "pad", "set_channel", "scale", "transpose"}
 (* composites: several steps of the protocol in one public call *)
 CompositeOps == {"merge", "quantise_and_normalise", "scale_requantise", "transpose_wrap"}
